@@ -239,6 +239,24 @@ fn case(t: &mut Tape, info: &mut CaseInfo) -> Result<(), String> {
     same("<Mode>Performance::new(&src) vs explicit", &r_mode, &r_explicit)?;
     info.comparisons += 3;
 
+    // the conversion happens at the mode switch, with the mods known then: mods given *afterwards* (a different
+    // key mod, say) apply to the already converted map, for borrowed and owned maps alike
+    if src_mode == GameMode::Osu && !src_is_convert {
+        let later = gen_diff(t, &DiffProfile::realistic(), target);
+        let later_mods = later.mods.build(target);
+        let expect = score.apply(Performance::new(&explicit).mods(later_mods.clone())).calculate();
+        for (name, p) in [
+            ("try_mode on a borrowed map", Performance::new(&map).mods(mods.clone()).try_mode(target).ok()),
+            ("try_mode on an owned map", Performance::new(map.clone()).mods(mods.clone()).try_mode(target).ok()),
+            ("mode_or_ignore on a borrowed map", Some(Performance::new(&map).mods(mods.clone()).mode_or_ignore(target))),
+            ("mode_or_ignore on an owned map", Some(Performance::new(map.clone()).mods(mods.clone()).mode_or_ignore(target))),
+        ] {
+            let p = p.ok_or_else(|| format!("{name} refused a possible conversion"))?;
+            same(&format!("mods(A).{name}.mods(B) vs Performance::new(&convert(A)).mods(B)"), &score.apply(p.mods(later_mods.clone())).calculate(), &expect)?;
+            info.comparisons += 1;
+        }
+    }
+
     // score setters given *before* the mode switch must be carried over (the conversions copy the
     // builder field by field); setters that mean different things in the two modes are left out
     let mut carried = score.clone();
@@ -258,6 +276,33 @@ fn case(t: &mut Tape, info: &mut CaseInfo) -> Result<(), String> {
         let before2 = carried.apply(Performance::new(&map).difficulty(d.clone())).mode_or_ignore(target).calculate();
         same("score setters applied before mode_or_ignore vs on the explicitly converted map", &before2, &after)?;
         info.comparisons += 2;
+    }
+
+    // the same with an accuracy that sits exactly midway between two achievable ones, where the last bit of the
+    // stored accuracy decides which distribution is generated (the setter is duplicated per mode)
+    if src_mode == GameMode::Osu && !src_is_convert && target != GameMode::Osu {
+        let n = match &via_explicit {
+            DifficultyAttributes::Taiko(a) => a.max_combo,
+            DifficultyAttributes::Catch(a) => a.n_fruits + a.n_droplets + a.n_tiny_droplets,
+            DifficultyAttributes::Mania(a) => a.n_objects,
+            DifficultyAttributes::Osu(a) => a.n_objects(),
+        };
+        if n > 0 {
+            for _ in 0..3 {
+                let j = t.range(0, i64::from(n) * 2 - 1) as f64;
+                // achievable taiko accuracies are j/(2n): midpoints (2j+1)/(4n); catch k/n: midpoints (2k+1)/(2n)
+                let acc = match target {
+                    GameMode::Taiko => 25.0 * (2.0 * j + 1.0) / f64::from(n),
+                    _ => 50.0 * (j + 1.0) / f64::from(n),
+                };
+                let tie = crate::gen::score::ScoreSpec { accuracy: Some(acc), misses: if t.coin() { Some(0) } else { None }, worst_case: score.worst_case, ..Default::default() };
+                let before = tie.apply(Performance::new(&map).difficulty(d.clone())).mode_or_ignore(target).calculate();
+                let after = tie.apply(Performance::new(&explicit).difficulty(d.clone())).calculate();
+                same(&format!("accuracy {acc} (a midpoint of achievable accuracies) set before mode_or_ignore vs on the explicitly converted map"), &before, &after)?;
+                info.comparisons += 1;
+            }
+            info.label("tie-accuracies");
+        }
     }
 
     // attribute-based calculators cannot change mode
@@ -283,7 +328,7 @@ pub fn property() -> Property {
         id: "C07",
         subchecks: vec![SubCheck {
             name: "conversion-and-dispatch",
-            rule: "G-MAP of all four native modes (1/8 of osu maps pre-converted, 1/12 of the others with the public is_convert flag set by hand) x uniform target mode x mods incl. key mods/Random/HO/IN/MR in all representations x G-DIFF x score spec. Oracle: convert / convert_ref / convert_mut give == maps or the same error variant (failed convert_mut leaves the map unchanged); own mode => identity and Cow::Borrowed; Ok iff target==mode or un-converted osu; result has mode==target and is_convert; calculate_for_mode, strains_for_mode, GradualDifficulty::new_with_mode / Beatmap::gradual_difficulty / Difficulty::gradual_difficulty / gradual_difficulty_for_mode::<M> (drained), GradualPerformance::new_with_mode (stepped with nth) and Beatmap::gradual_performance / Difficulty::gradual_performance / gradual_performance_for_mode::<M> (mode-specific calculator; walked with next and last, len() compared), Performance::try_mode / mode_or_ignore / <Mode>Performance::new(&src) all same-value-equal to the same call on the explicitly converted map; on impossible conversions every entry point refuses and try_mode returns the unchanged calculator. Non-trivial: osu source with >=3 objects incl. a slider and target != osu, or an error path from a non-osu/converted source.",
+            rule: "G-MAP of all four native modes (1/8 of osu maps pre-converted, 1/12 of the others with the public is_convert flag set by hand) x uniform target mode x mods incl. key mods/Random/HO/IN/MR in all representations x G-DIFF x score spec. Oracle: convert / convert_ref / convert_mut give == maps or the same error variant (failed convert_mut leaves the map unchanged); own mode => identity and Cow::Borrowed; Ok iff target==mode or un-converted osu; result has mode==target and is_convert; calculate_for_mode, strains_for_mode, GradualDifficulty::new_with_mode / Beatmap::gradual_difficulty / Difficulty::gradual_difficulty / gradual_difficulty_for_mode::<M> (drained), GradualPerformance::new_with_mode (stepped with nth) and Beatmap::gradual_performance / Difficulty::gradual_performance / gradual_performance_for_mode::<M> (mode-specific calculator; walked with next and last, len() compared), Performance::try_mode / mode_or_ignore / <Mode>Performance::new(&src) all same-value-equal to the same call on the explicitly converted map; mods changed after the mode switch act on the map converted with the earlier mods (borrowed and owned maps); on impossible conversions every entry point refuses and try_mode returns the unchanged calculator. Non-trivial: osu source with >=3 objects incl. a slider and target != osu, or an error path from a non-osu/converted source.",
             quick: 40_000,
             thorough: 150_000,
             tape_len: 1500,
